@@ -21,6 +21,27 @@ DEV_OFF = {"DropOrder": '"reverse"', "ResetCounterOnInstall": "TRUE", "MprotectS
 # =============================================================== lifecycle family
 
 JUMP_FLAVOURS = ["raw", "rawfn", "closure", "fake", "unchecked"]
+POOL_FLAVOURS = {"rust": JUMP_FLAVOURS, "libc": ["raw", "fake", "unchecked"], "generic": ["raw", "unchecked"],
+                 "async": ["async", "async_unchecked"]}
+
+
+def choose_pool(hist, sid):
+    """rotate the pools of real targets over the behaviours, subject to what each pool can express"""
+    inst = [h for h in hist if h["act"] == "Install"]
+    has_bool = any(h["kind"] == "bool" for h in inst)
+    has_counted = any(h["n"] >= 0 for h in inst)
+    gates = set(h["gate"] for h in inst)
+    faults = set(h["fault"] for h in inst)
+    calls = any(h["act"] in ("Call", "CallUnwind") and not h.get("match", True) for h in hist)
+    cands = ["rust"]
+    # counted fakes are kept on Rust-ABI targets: a panic inside an extern "C" fake aborts by language rule
+    if not has_bool and not has_counted and gates <= {"ok", "sig", "bool", "null"} and not calls:
+        cands.append("libc")
+    if not has_counted and gates <= {"ok", "sig"} and not calls:
+        cands.append("generic")
+    if not has_bool and not has_counted and gates <= {"ok", "sig"} and not calls:
+        cands.append("async")
+    return cands[sid % len(cands)]
 
 
 def hist_to_scenario(hist, sid, pool, nf, diff, reuse_sites=False):
@@ -48,7 +69,8 @@ def hist_to_scenario(hist, sid, pool, nf, diff, reuse_sites=False):
             elif h["kind"] == "bool":
                 st["flavour"] = "bool"
             else:
-                st["flavour"] = JUMP_FLAVOURS[(sid + ninst) % len(JUMP_FLAVOURS)]
+                fl = POOL_FLAVOURS.get(pool, JUMP_FLAVOURS)
+                st["flavour"] = fl[(sid + ninst) % len(fl)]
             cur["steps"].append(st)
         elif a == "Panic":
             cur["steps"].append({"op": "panic"})
@@ -220,7 +242,8 @@ def lifecycle_check(prop, tier):
     nf = 2 if any(x.get("f") == "f2" for h in hists for x in h) or prop in ("C02", "C03", "C12", "C17") else 1
     scen = []
     for i, h in enumerate(hists, 1):
-        scen.append(hist_to_scenario(h, i, "rust", nf, diff=(prop == "C03" or i % 7 == 0), reuse_sites=(prop == "C07")))
+        pool = "rust" if prop in ("C07", "C06") or nf == 1 else choose_pool(h, i)
+        scen.append(hist_to_scenario(h, i, pool, nf, diff=(prop == "C03" or i % 7 == 0), reuse_sites=(prop == "C07")))
     groups, order, _ = vlib.run_harness("lifecycle", scen, "lifecycle_" + prop)
     # spec -> impl
     nviol = 0
